@@ -282,7 +282,9 @@ def run(R):
                     "stamped - raised by a batch flush or a lazy future, or a user exception with its own bookkeeping - turns into AttributeError inside the "
                     "stepper and the task fails with that instead" % (ep, x.attr),
                     scfg_.fmt_path(px) if px else None)
+    accept_error_in_handler(R, ro, "C02.CAPTURE")
     generator_exit_outcomes(R, ro, hier, "C02.ESCAPE")
+    common.safe_trigger_selects_failures(R, "C02.ESCAPE")
     stamp_contained(R, ro, hier, "C02.CAPTURE")
     last_value_fresh(R, ro, "C02.FLOW-FRESH")
     exits_do_not_suppress(R, "C02.EXIT-PROPAGATES")
@@ -316,13 +318,18 @@ def stamp_contained(R, ro, hier, rule, classes=None, min_n=3):
                 st = q.enclosing_stmt(node)
                 nodes = [x for x in cfg.nodes if x.stmt is st]
 
-                def stamped(nd, subj=subj):
+                attr_ = node.attr if isinstance(node, ast.Attribute) else None
+
+                def stamped(nd, subj=subj, attr_=attr_):
+                    # (an object that has attribute X is known to take a store to X - not to any other attribute: a class may define
+                    # _task itself and still refuse new attributes)
                     if nd.kind != "test":
                         return None
                     k_, s_, pos_ = q.atom_test(nd.ast)
                     if k_ == "call" and s_ == "hasattr" and isinstance(nd.ast, (ast.Call, ast.UnaryOp)):
                         c_ = nd.ast.operand if isinstance(nd.ast, ast.UnaryOp) else nd.ast
-                        if isinstance(c_, ast.Call) and c_.args and q.src(c_.args[0]) == subj:
+                        if isinstance(c_, ast.Call) and len(c_.args) == 2 and q.src(c_.args[0]) == subj and attr_ is not None \
+                                and isinstance(c_.args[1], ast.Constant) and c_.args[1].value == attr_:
                             return "T" if pos_ else "F"
                     return None
                 prot = bool(nodes) and kit.path_avoiding_guard(cfg, nodes, stamped, N, dead_ok=True) is None and bool(kit.guard_edges_exist(cfg, stamped))
@@ -580,7 +587,11 @@ def batch_err(R, ro, rule, hier):
     base = kit.call_sites(comp, lambda c: q.attr_call(c)[1] == "_computed" and q.dotted(q.attr_call(c)[0]) in ("futures.FutureBase", "FutureBase", "super()"))
     base += [(n, c) for n, c in kit.call_sites(comp, lambda c: q.attr_call(c)[1] == "_computed" and isinstance(q.attr_call(c)[0], ast.Call))]
     loops = [cfg.nodes_for(n)[0] for n in ast.walk(comp.node) if isinstance(n, ast.For) and common.iterates_items(comp.node, n.iter)]
-    R.need(base, "idiom: BatchBase._computed no longer notifies through FutureBase._computed")
+    if not base:
+        R.violation(rule + ".ITEMS-FIRST", comp.qualname + ":base", R.site(comp),
+                    "BatchBase._computed no longer hands over to FutureBase._computed(self): the batch's completion is announced (if at all) without the base "
+                    "implementation's containment of subscriber failures - a raising subscriber makes cancel() raise and flush() raise for a failing body")
+        return
     p = cfg.find_path([cfg.entry], [n for n, c in base], N, cut_nodes=loops)
     R.check(p is None, rule + ".ITEMS-FIRST", comp.qualname, R.site(comp),
             "every unset item is completed before the batch's own completion is announced",
@@ -661,3 +672,55 @@ def generator_exit_outcomes(R, ro, hier, rule):
                     cfg.fmt_path(px) if px else None)
     R.check(n >= 1, rule, driver.qualname + ":generator-exit-subclasses", R.site(driver),
             "%d GeneratorExit subclasses of the package that are failures examined" % n, "no GeneratorExit subclass besides the result carrier found")
+
+
+def accept_error_in_handler(R, ro, rule):
+    """The method that records a task's failure stamps the exception with the type and traceback of *the exception being handled*
+    (sys.exc_info(), directly and through qcore's prepare_for_reraise).  It is therefore called inside the `except` block that
+    caught the error - or, when it is called after that block (the context loops go on with the remaining contexts first), the
+    handler has prepared the error itself.  Otherwise the stamp is (None, None): generator.throw(None, error, None) in the awaiting
+    task raises TypeError instead of delivering the error."""
+    acc = ro.accept_error_method()
+    n = 0
+    for m in ro.AsyncTask.methods.values():
+        for nd, c in ro.calls_to(m, [acc]):
+            if not c.args:
+                continue
+            n += 1
+            inside = any(isinstance(a, ast.ExceptHandler) for a in q.ancestors(c))
+            ok = inside
+            why = ""
+            if not inside:
+                arg = c.args[0]
+                srcs = []
+                if isinstance(arg, ast.Name):
+                    srcs = common.assigned_values(m.node, arg.id)
+                # every non-None value the variable can hold was bound by a handler that prepared it
+                ok = bool(srcs)
+                for kind, v in srcs:
+                    if kind == "expr" and q.is_none(v):
+                        continue
+                    hs = []
+                    if kind == "handler":
+                        hs = [v]
+                    elif kind == "expr" and isinstance(v, ast.Name):
+                        hv = common.assigned_values(m.node, v.id)
+                        hs = [h for k, h in hv if k == "handler"]
+                        if len(hs) != len(hv):
+                            hs = []
+                    if not hs:
+                        ok = False
+                        why = "`%s` may hold something that no handler of this method caught" % q.src(arg)
+                        continue
+                    for h in hs:
+                        names = set([h.name]) | (set([arg.id]) if isinstance(arg, ast.Name) else set())
+                        prepared = any((q.call_name(x) or "").endswith("prepare_for_reraise") and x.args and isinstance(x.args[0], ast.Name) and x.args[0].id in names
+                                       for x in q.calls(h))
+                        if not prepared:
+                            ok = False
+                            why = "the handler that caught `%s` does not call prepare_for_reraise on it" % h.name
+            R.check(ok, rule, "%s:accepts-in-handler:%s" % (m.qualname, q.stmt_key(c)[:40]), R.site(m, c),
+                    "%s is called while the error is being handled, or the handler prepared it" % acc.name,
+                    "%s is called after the except block has been left and %s: the error is stamped with the type and traceback of 'no exception' - the awaiting "
+                    "task's generator.throw(None, error, None) raises TypeError, so the parent fails with that instead of receiving the exception" % (acc.name, why))
+    R.check(n >= 3, rule, "accept-error-calls", "asynq/async_task.py", "%d calls of %s examined" % (n, acc.name), "fewer than three calls of the accepting method found")
